@@ -67,9 +67,9 @@ type Event struct {
 
 // env part of state (deep-copied in clone via cloneEnv)
 type Layer struct {
-	Stores map[string][]StoreEntry
-	Bank   []BankWrite
-	Closed bool // closed world: unseen keys are absent (no lazy havoc)
+	Stores         map[string][]StoreEntry
+	Bank           []BankWrite
+	Closed         bool                // closed world: unseen keys are absent (no lazy havoc)
 	ClosedPrefixes map[string][]BytesV // per store: prefixes declared closed by the harness (zzvp.ClosePrefix)
 }
 
@@ -85,6 +85,7 @@ func (l *Layer) closedFor(store string, key BytesV) bool {
 	}
 	return false
 }
+
 type IterV struct {
 	ID int // heap object holding the iterator state
 }
@@ -574,6 +575,16 @@ func (e *Exec) liveEntries(s *State, st StoreV, prefix BytesV) []StoreEntry {
 
 // mkIte builds (ite c a b); inside a state merge large results get a fresh name so that terms do not grow exponentially
 func (e *Exec) mkIte(c, a, b string, sort string) string {
+	if len(a) > 2000000 || len(b) > 2000000 || len(c) > 2000000 {
+		big := a
+		if len(b) > len(big) {
+			big = b
+		}
+		if len(c) > len(big) {
+			big = c
+		}
+		panic("term explosion: " + big[:300])
+	}
 	t := tIte(c, a, b)
 	if e.nameSink == nil || len(t) < 120 || sort == "Real" {
 		return t
@@ -601,7 +612,7 @@ func (e *Exec) iteVal(c string, a, b Val) Val {
 		if nx == "true" && ny == "true" {
 			return BigV{Nil: true, T: "0"}
 		}
-		nm := tIte(c, nx, ny)
+		nm := e.mkIte(c, nx, ny, "Bool")
 		if nm == "false" {
 			nm = ""
 		}
@@ -724,8 +735,21 @@ func (e *Exec) unmarshalGet(s *State, g GetResult, want types.Type) Val {
 		}
 	}
 	v := vals[len(vals)-1]
+	if len(vals) == 1 {
+		return v
+	}
+	// merged over the aliasing candidates; slices of different shape become one slice with a symbolic length
+	var names []string
+	prev := e.nameSink
+	e.nameSink = &names
+	defer func() { e.nameSink = prev }()
 	for i := len(vals) - 2; i >= 0; i-- {
-		v = e.iteVal(g.Conds[i], vals[i], v)
+		v = e.iteValM(g.Conds[i], vals[i], v, s, s, s)
+	}
+	if prev != nil {
+		*prev = append(*prev, names...)
+	} else {
+		s.PC = append(s.PC, names...)
 	}
 	return v
 }
@@ -780,6 +804,9 @@ func addrTerm(v Val) string {
 		if len(segs) == 1 && segs[0].Kind == "str" {
 			return "(addrofbytes " + segs[0].T + ")"
 		}
+	}
+	if b, ok := v.(BytesV); ok && (b.Nil || len(b.Segs) == 0) {
+		return "(- 777777777777)" // the empty address (a failed bech32 parse whose error was ignored): one fixed account nobody owns
 	}
 	panic(fmt.Sprintf("addrTerm of %T %v", v, v))
 }
